@@ -41,6 +41,21 @@ func loadRealAt(sources []*ast.Source, preludePos int) (l ALoaded, schema *ast.S
 	var err error
 	switch preludePos {
 	case 0:
+		if len(sources) >= 2 && len(sources)%2 == 0 {
+			// the same sources first through the Must* helper, handed over as a slice with spare capacity: whatever
+			// it does, the caller's slice is the caller's (the load that follows sees the same sources)
+			mine := append(make([]*ast.Source, 0, len(sources)+1), sources...)
+			func() {
+				defer func() { recover() }() // (it panics when the sources do not load)
+				gqlparser.MustLoadSchema(mine...)
+			}()
+			for k := range sources {
+				if mine[k] != sources[k] {
+					return l, nil, fmt.Sprintf("gqlparser.MustLoadSchema changed the caller's slice of sources: element %d is now %q", k, mine[k].Name)
+				}
+			}
+			sources = mine
+		}
 		s, err = gqlparser.LoadSchema(sources...)
 	case 1:
 		s, err = validator.LoadSchema(append(append([]*ast.Source{}, sources...), validator.Prelude)...)
@@ -197,7 +212,7 @@ func checkTypeSystem(c *core.Ctx, orderProp bool) {
 	var nontrivial int64
 	id := 0
 	var handInvolved []string // with handItems: the names of the definitions involved in the list's single violation
-	var handItems []SDLItem // when set: a hand-written list of definitions whose order must not matter
+	var handItems []SDLItem   // when set: a hand-written list of definitions whose order must not matter
 	addCase := func(doc *ASDoc, fault *SchemaFault, handText string) {
 		var items []SDLItem
 		if doc != nil {
